@@ -13,7 +13,8 @@ theorem inv_rlk (n : Nat) (sh : Sh) (pcs : Nat → Pc) (t : Nat) (e : Env) (o : 
   simp only [cntR] at hC
   have hgp : gpc (pcs t) = .idle := by rw [hpc]; rfl
   have hrp : rpc (pcs t) = p := by rw [hpc]; rfl
-  simp only [tstepG] at hts
+  simp only [tstepG, Bool.not_false, Bool.true_and] at hts
+  generalize hme : (if (o == Op.dropR) = true then menvD e else menvR e) = me' at hts
   split at hts
   · contradiction
   next rl' p' hm =>
@@ -21,21 +22,24 @@ theorem inv_rlk (n : Nat) (sh : Sh) (pcs : Nat → Pc) (t : Nat) (e : Env) (o : 
   next hheld =>
     simp only [Option.some.injEq, Prod.mk.injEq] at hts; obtain ⟨rfl, rfl⟩ := hts
     refine ⟨gate_same n sh _ pcs t _ hlt hgI rfl rfl rfl (by rw [hgp]; rfl),
-      rl_step n sh _ pcs t _ (menvR e) hlt hrI (by rw [hrp, hm, hheld]; rfl), ?_, hgrp, hwg⟩
+      rl_step n sh _ pcs t _ me' hlt hrI (by rw [hrp, hm, hheld]; rfl), ?_, hgrp, hwg⟩
     have := hC (.rlp o); simp only [cntR] at this
     cases o <;> simp at this ⊢ <;> omega
   next hnh =>
   split at hts
   next hidle =>
+    split at hts
+    · contradiction
+    next hnd =>
     simp only [Option.some.injEq, Prod.mk.injEq] at hts; obtain ⟨rfl, rfl⟩ := hts
     refine ⟨gate_same n sh _ pcs t _ hlt hgI rfl rfl rfl (by rw [hgp]; rfl),
-      rl_step n sh _ pcs t _ (menvR e) hlt hrI (by rw [hrp, hm, hidle]; rfl), ?_, hgrp, hwg⟩
+      rl_step n sh _ pcs t _ me' hlt hrI (by rw [hrp, hm, hidle]; rfl), ?_, hgrp, hwg⟩
     have := hC .idle; simp only [cntR] at this
-    cases o <;> simp at this ⊢ <;> omega
+    cases o <;> simp at this hnd ⊢ <;> omega
   next hni =>
     simp only [Option.some.injEq, Prod.mk.injEq] at hts; obtain ⟨rfl, rfl⟩ := hts
     refine ⟨gate_same n sh _ pcs t _ hlt hgI rfl rfl rfl (by rw [hgp]; rfl),
-      rl_step n sh _ pcs t _ (menvR e) hlt hrI (by rw [hrp, hm]; rfl), ?_, hgrp, hwg⟩
+      rl_step n sh _ pcs t _ me' hlt hrI (by rw [hrp, hm]; rfl), ?_, hgrp, hwg⟩
     have := hC (.rlk o p'); simp only [cntR] at this
     cases o <;> simp at this ⊢ <;> omega
 
